@@ -81,3 +81,6 @@ N("c20-n-drop-own-placeholder-on-failure", "C20", FN, Q, "                    va
 M("c20-falsy-instance-dropped", "C20", FN, "_LRUMethodWrapper.__call__",
   "        if self.__instance is None:\n            return await self.__wrapper(*args, **kwargs)\n\n        return await self.__wrapper(self.__instance, *args, **kwargs)",
   "        if self.__instance:\n            return await self.__wrapper(self.__instance, *args, **kwargs)\n\n        return await self.__wrapper(*args, **kwargs)", ["R20-f"])
+N("c20-n-method-wrapper-branches-swapped", "C20", FN, "_LRUMethodWrapper.__call__",
+  "        if self.__instance is None:\n            return await self.__wrapper(*args, **kwargs)\n\n        return await self.__wrapper(self.__instance, *args, **kwargs)",
+  "        if self.__instance is not None:\n            return await self.__wrapper(self.__instance, *args, **kwargs)\n        else:\n            return await self.__wrapper(*args, **kwargs)")
